@@ -35,7 +35,10 @@ type opSpec struct {
 	GCAfter bool    `json:"gc_after_run,omitempty"`
 	// FailLate: failing bodies write (half of) their outputs before they fail. SecondPlain
 	// (with run_twice): the second run of the process is not forced although the first was.
-	FailLate    bool `json:"fail_after_writing,omitempty"`
+	// REPL: the build is started through the REPL's run(label, always=, dry_run=, callback=)
+	// builtin; the events reach a Starlark callback through dawn's channel-based adapter.
+	REPL     bool `json:"via_repl_run_builtin,omitempty"`
+	FailLate bool `json:"fail_after_writing,omitempty"`
 	SecondPlain bool `json:"second_run_not_forced,omitempty"`
 }
 
